@@ -135,6 +135,12 @@ where
         block: &Loop,
         pop_stack: bool,
     ) -> Result<(), ExecutionError> {
+        // if we are exiting a loop, the condition at the top of the stack must be ZERO (ONE would
+        // have kept us in the loop); any other value is not binary and the execution fails.
+        if pop_stack && self.stack.peek() != ZERO {
+            return Err(ExecutionError::NotBinaryValue(self.stack.peek()));
+        }
+
         // this appends a row with END operation to the decoder trace.
         self.decoder.end_control_block(block.hash().into());
 
@@ -143,10 +149,6 @@ where
         // entered the loop in the first place, the stack would have been popped when the LOOP
         // operation was executed.
         if pop_stack {
-            // make sure the condition at the top of the stack is set to ZERO
-            #[cfg(debug_assertions)]
-            debug_assert_eq!(ZERO, self.stack.peek());
-
             self.execute_op(Operation::Drop)
         } else {
             self.execute_op(Operation::Noop)
